@@ -35,6 +35,12 @@ type SimLoaderP struct {
 	prioM
 }
 
+// SimLoaderM carries the Priority marker only (no Order): an unordered participant.
+type SimLoaderM struct {
+	SimLoader
+	prioM
+}
+
 func NewSimLoader(orderClass string, order int, core SimLoader) interface {
 	LoadConfig() ([]byte, error)
 } {
@@ -45,6 +51,8 @@ func NewSimLoader(orderClass string, order int, core SimLoader) interface {
 		return &SimLoaderO{core, ordM{order}}
 	case "priority":
 		return &SimLoaderP{core, ordM{order}, prioM{}}
+	case "marker":
+		return &SimLoaderM{core, prioM{}}
 	}
 	panic("NewSimLoader: " + orderClass)
 }
